@@ -186,9 +186,12 @@ pub struct TapeCfg {
     pub shrink_iters: u32,
 }
 impl TapeCfg {
+    /// `quick_cases` is the base size of the quick tier; it is multiplied by QUICK_SCALE (10) so that the
+    /// tier run on every change does a substantial, fixed amount of work (16 shards in both tiers).
     pub fn new(ctx: &Ctx, quick_cases: u32, thorough_cases: u32, tape_max: usize) -> Self {
-        let shards = ctx.tier.pick(4, 16);
-        let total = ctx.tier.pick(quick_cases, thorough_cases);
+        let shards = 16;
+        let scale: u32 = std::env::var("LC3V_QUICK_SCALE").ok().and_then(|s| s.parse().ok()).unwrap_or(10);
+        let total = ctx.tier.pick(quick_cases.saturating_mul(scale), thorough_cases.max(quick_cases.saturating_mul(scale)));
         TapeCfg {
             shards,
             cases_per_shard: total.div_ceil(shards as u32),
